@@ -213,6 +213,27 @@ func checkListing(e *fw.Env, name string, pg pager, truth []string, hist any) {
 		}
 		e.Res.Sig("%s|n=%d|offset-windows", name, bucket(n))
 	}
+	// a client that keeps count_total set while following next keys: every page reports either
+	// no total (the SDK does not count on key pages) or the true one
+	for _, lim := range []uint64{1, 2, 3} {
+		var key []byte
+		for page := 0; page < n+2; page++ {
+			_, pr, err := pg(&query.PageRequest{Key: key, Limit: lim, CountTotal: true})
+			e.Res.Eval()
+			if err != nil {
+				viol("pagination-error", fmt.Sprintf("key page %d limit %d count_total: %v", page, lim, err))
+				return
+			}
+			if pr != nil && pr.Total != 0 && pr.Total != uint64(n) {
+				viol("wrong-total", fmt.Sprintf("page %d (by key, limit %d) with count_total reports %d, truth %d", page, lim, pr.Total, n))
+				return
+			}
+			if pr == nil || len(pr.NextKey) == 0 {
+				break
+			}
+			key = pr.NextKey
+		}
+	}
 	var viaOffset []string
 	for off := 0; off <= n; off += 2 {
 		items, _, err := pg(&query.PageRequest{Offset: uint64(off), Limit: 2})
@@ -466,5 +487,23 @@ func CheckC13(e *fw.Env, l *Lab) {
 	// empty ledger
 	if e.Shard == 0 {
 		QueryOracle(e, l.W, l.Base, "empty ledger")
+	}
+	// a ledger with more entries per filter than any default page size: a chain imported with
+	// 130 entries, queried at once and after some more transfers
+	if e.Shard == 1%e.Shards {
+		gen, sh := seededStatsGenesis(130)
+		l2, err := NewLab(world.Config{OrbiterGenesis: []byte(gen)})
+		if err != nil {
+			e.Res.Inconc("seeded-ledger world: %v", err)
+			return
+		}
+		QueryOracle(e, l2.W, l2.Base, "chain imported with 130 statistics entries")
+		ctx, _ := l2.Base.CacheContext()
+		History(e, l2, ctx, sh, 40, 20, func(step int, trail []HistOp) bool {
+			before := len(e.Res.Violations)
+			QueryOracle(e, l2.W, ctx, map[string]any{"genesis": "130 statistics entries", "step": step, "last_ops": trail})
+			return len(e.Res.Violations) == before
+		})
+		e.Res.Sig("seeded-ledger|entries=%d", len(sh.In))
 	}
 }
